@@ -354,6 +354,10 @@ def _r1(ctx):
         lw = lower(pe)
         key = f"_assign_rates:variant[{names[(has_lo, has_hi)]}]"
         m = re.match(want[(has_lo, has_hi)], lw.text)
+        if not m and (re.search(r"SEQ\d+_", lw.text) or "=" not in re.sub(r"[HS]E?Q?\d+_", "", lw.text)):
+            # the statement text could not be reconstructed (an opaque piece where the assignment should be): not a verdict on its shape
+            ctx.unrec("R1", key, (FILE, rets[0].line), f"cannot reconstruct the text of the generated statement: {lw.text[:100]!r}")
+            continue
         if not m:
             ctx.bad("R1", key, (FILE, rets[0].line), "generated statement has the wrong guard shape",
                     expected=want[(has_lo, has_hi)].replace("(?P<", "<").replace(r">H\d+_)", ">"), found=lw.text)
@@ -1146,4 +1150,23 @@ BENIGN += [
          '        for opstr in ("<", ">", ".LE.", ".GE.", ".LT.", ".GT."):\n            text = text.replace(opstr, "")\n        return float(text.replace("d", "e"))\n\n' + _K_CLS},
         {"file": KROME, "old": _K_ARMS_OLD, "new": '                elif key == "tmin":\n                    limit = self._limit(value)\n                    if limit is not None:\n                        self.temp_min = limit\n'
          '                elif key == "tmax":\n                    limit = self._limit(value)\n                    if limit is not None:\n                        self.temp_max = limit\n'}]},
+]
+# ---- wave 2: other spellings of the statement text
+
+
+def _stmt_loop(body):
+    return '        rateassign = []\n        for ridx, (trange, rateexpr) in enumerate(zip(tranges, rateexprs)):\n' + body + '            rateassign.append(assign)\n'
+
+
+MUTANTS += [
+    {"name": "percent-format-guard-not-enclosing", "file": T, "old": _STMT_COMP,
+     "new": _stmt_loop('            assign = "%s[%d] = %s;" % (rate_sym, ridx, rateexpr)\n            if trange:\n                assign = "if (%s) {\\n}\\n%s" % (trange, assign)\n'), "rules": ["R1"]},
+]
+BENIGN += [
+    {"name": "statement-by-percent-format", "file": T, "old": _STMT_COMP,
+     "new": _stmt_loop('            assign = "%s[%d] = %s;" % (rate_sym, ridx, rateexpr)\n            if trange:\n                assign = "if (%s) {\\n%s\\n}" % (trange, assign)\n')},
+    {"name": "statement-by-concatenation-with-str", "file": T, "old": _STMT_COMP,
+     "new": _stmt_loop('            assign = rate_sym + "[" + str(ridx) + "] = " + rateexpr + ";"\n            if trange:\n                assign = "\\n".join(("if (" + trange + ") {", assign, "}"))\n')},
+    {"name": "statement-lines-wrapped-in-list", "file": T, "old": _STMT_COMP,
+     "new": _stmt_loop('            lines = [f"{rate_sym}[{ridx}] = {rateexpr};"]\n            if trange:\n                lines = [f"if ({trange}) {{", *lines, "}"]\n            assign = "\\n".join(lines)\n')},
 ]
